@@ -51,7 +51,7 @@ def _method_jobs(tier):
                          "prestep": 0.875})
     bases = [("EulerSolver", 1), ("MidpointSolver", 2), ("RK4Solver", 4), ("RK45CKSolver", 5), ("HeunsSolver", 2)]
     if thorough:
-        bases += [("RK5Solver", 5), ("RalstonsSolver", 2), ("DOPRI45", 5), ("BackwardEuler", 1)]
+        bases += [("RK5Solver", 5), ("RalstonsSolver", 2), ("DOPRI45", 5)]
     for bname, p in bases:
         for L in (2, 3, 4, 5):
             if p + L - 2 > (10 if thorough else 8) and L > 3:
@@ -138,4 +138,5 @@ def check(run, replay=None):
                         "smooth right-hand side (this is what makes the finite check cover 'all smooth f, all states, all small h')",
                         "trees are generated up to order %d; methods of higher declared order (RK1412: 14, RK108: 10 in quick, RadauIIA19: 19) are "
                         "checked up to the cap only; 'halving the step divides the global error by 2^p' is not measured" % (10 if thorough else 8),
-                        "implicit methods are run in float64 with Newton tolerance 1e-13, h = +-1/2"]
+                        "implicit methods are run in float64 with Newton tolerance 1e-13, h = +-1/2; Richardson wrappers are exercised with explicit "
+                        "base methods only (the wrapper hands one tolerance to both the stage solver of an implicit base and its own controller)"]
